@@ -43,7 +43,8 @@ def targets_for(name, path):
             return v
     meta = os.path.join(os.path.dirname(path), "meta.json")
     if os.path.exists(meta):
-        return [json.load(open(meta))["property"]]
+        m = json.load(open(meta))
+        return m.get("checks") or [m["property"]]
     return []
 
 
@@ -94,6 +95,11 @@ def main():
                 if not hit and prop == "C11":
                     sh("cargo build --release --offline", cwd=f"{SCR}/verif/threads")
                     rc, out2 = sh(f"./target/release/posim-threads check --tier quick --out {SCR}/out", cwd=f"{SCR}/verif/threads")
+                    hit = rc == 1
+                    out += out2
+                if not hit and prop == "C07":
+                    sh("cargo build --release --offline", cwd=f"{SCR}/verif/threads")
+                    rc, out2 = sh(f"./target/release/posim-threads check --prop C07 --tier quick --out {SCR}/out", cwd=f"{SCR}/verif/threads")
                     hit = rc == 1
                     out += out2
                 if rc == 2:
